@@ -275,7 +275,8 @@ class RepeatedValueWrapper(MutableSequence[_V], Generic[_M, _V]):
     def __eq__(self, other: object) -> bool:
         return (
             isinstance(other, Collection) and
-            all(a == b for a, b in itertools.zip_longest(self, other)))
+            len(self) == len(other) and
+            all(a == b for a, b in zip(self, other)))
 
 
 def _update_raw(raw_value: _SV, value: str) -> bool:
